@@ -1042,7 +1042,33 @@ func (c *Ctx) resultPerCall(un *ssa.Function) {
 				}
 				if fa, isFA := x.X.(*ssa.FieldAddr); isFA {
 					_, fname, _ := fieldNameOfAddr(fa)
-					return "loaded from the field " + fname + ", which outlives the call"
+					// a re-used list is sound when it is taken and emptied in one go: the load is followed, in its block, by a
+					// store of an empty slice (f[:0] / nil) into the same field
+					blk := x.Block()
+					after := false
+					for _, i2 := range blk.Instrs {
+						if i2 == ssa.Instruction(x) {
+							after = true
+							continue
+						}
+						st, isSt := i2.(*ssa.Store)
+						if !after || !isSt {
+							continue
+						}
+						fa2, isFA2 := st.Addr.(*ssa.FieldAddr)
+						if !isFA2 || fa2.Field != fa.Field || fa2.X != fa.X {
+							continue
+						}
+						if cv, isC := st.Val.(*ssa.Const); isC && cv.Value == nil {
+							return ""
+						}
+						if sl, isSl := st.Val.(*ssa.Slice); isSl && sl.High != nil {
+							if hc, isHC := sl.High.(*ssa.Const); isHC && hc.Value != nil && hc.Int64() == 0 {
+								return ""
+							}
+						}
+					}
+					return "loaded from the field " + fname + ", which outlives the call, and the field is not emptied where it is taken"
 				}
 				if g, isG := x.X.(*ssa.Global); isG {
 					return "loaded from the package variable " + g.Name()
@@ -1070,7 +1096,7 @@ func (c *Ctx) resultPerCall(un *ssa.Function) {
 			n++
 			st, d := report.Discharged, ""
 			if why := trace(rv, map[ssa.Value]bool{}, 0); why != "" {
-				st, d = report.Violated, "the returned list is "+why+": unless every exit empties it, the messages of this read are returned again by the next call - one frame, several messages"
+				st, d = report.Violated, "the returned list is "+why+": the messages of this read are returned again by the next call - one frame, several messages"
 			}
 			R.Add(rule, fmt.Sprintf("%s / return #%d", shortFn(un), n), c.P.RelPos(ret.Pos()), st, d)
 		}
